@@ -410,9 +410,11 @@ def ext(run):
     run.validate("misc", t, "Trace_misc", prefix="X.", label="(V) receiver sensitivity / link budget relations", chunk=20000)
     t = run.record("frame", "japayload", n=T(run, 3000, 100000))
     run.validate("frame", t, "Trace_frame", prefix="X.", label="(V) a decoded join-accept payload is one the encoder accepts and decodes to itself", chunk=8000)
+    t = run.record("jsonview", "frames", n=T(run, 1500, 60000))
+    run.validate("jsonview", t, "Trace_jsonview", prefix="X.", label="(V) the JSON document of a frame has exactly the leaves of the specification's view", chunk=4000)
     t = run.record("misc", "zerovalue")
     run.validate("misc", t, "Trace_misc", prefix="X.", label="(V) methods on zero values / nil members return")
-    run.require_kinds("client/client", "band/bandmisc", "misc/sens", "frame/japl", "misc/zerovalue")
+    run.require_kinds("client/client", "band/bandmisc", "misc/sens", "frame/japl", "misc/zerovalue", "jsonview/jsonview")
     run.rc = run.finish(assumptions=["extended coverage, outside the listed properties", "the asynchronous (Redis) client mode is covered by the design model only: no Redis server can run here",
                                      "max EIRP values and TxParamSetup support from RP002-1.0.x as transcribed in spec/trace/Trace_band.tla"])
 
